@@ -283,6 +283,7 @@ pub struct Mon {
     pub unknown_client_write: bool,
     pub rolled_back_writes: bool,
     pub faults_fired: u8,
+    pub last_fault_call: u16,
     pub log: [u8; LOGN],
     pub logn: usize,
 }
@@ -303,6 +304,7 @@ pub const MON0: Mon = Mon {
     unknown_client_write: false,
     rolled_back_writes: false,
     faults_fired: 0,
+    last_fault_call: 0,
     log: [0; LOGN],
     logn: 0,
 };
@@ -420,6 +422,7 @@ impl<const C: usize> World<C> {
                 || (faults().f2 != 0 && self.mon.calls == faults().f2));
         if f {
             self.mon.faults_fired += 1;
+            self.mon.last_fault_call = self.mon.calls;
         }
         f
     }
